@@ -7,6 +7,14 @@
 // detector pairs, non-negativity; at the end of the history: cache on == cache off, linearity in the
 // activity image, zero activity -> exactly zero.
 //
+// Exchange clause: a detector pair and the exchanged pair are the same LOR and the same bin (C01), so the exchange is made
+// in the protected per-pair function actual_scatter_estimate(result, A, B) (harness-side subclass `Sim`), for the pair that
+// find_detectors reports for every bin; the stored bin value must equal estimate(A,B).
+//
+// Known findings excluded by construction (work/notes/C16_findings.md; VERIF_NO_EXCLUDE=1 or =F1,F3,... switches them off):
+//  F1 stale 511 keV efficiency after an energy-window change, F2 debug assertion for single-ring scanners,
+//  F3 NaN from the automatic scatter-point image of single-ring scanners, F4 repeated automatic scatter-point down-sampling.
+//
 // Preconditions taken from the code (ScatterSimulation.cxx unless said otherwise):
 //  * set_up(): error() unless template, exam info (with energy window, ExamInfo::has_energy_information:
 //    both thresholds > 0), scanner energy resolution + reference energy (> 0), activity and attenuation image are set.
@@ -398,6 +406,8 @@ check_output(Sim& s, const Out& out, bool nonneg_activity)
                std::get<1>(k), ", view ", std::get<2>(k), ", tang ", std::get<3>(k), ") but the estimate for its detector pair is ", ab);
       const double d = std::fabs(ab - ba);
       worst = std::max(worst, d);
+      if (ab != ba)
+        stats().count("detector pairs with estimate(A,B) != estimate(B,A) in the last bits");
       if (!(d <= TOL_SYM * scale))
         return Result::fail(cat("exchange symmetry: bin(seg ", std::get<0>(k), ", ax ", std::get<1>(k), ", view ", std::get<2>(k), ", tang ", std::get<3>(k),
                                 ") detectors A=", A, " B=", B, ": estimate(A,B) = ", ab, " but estimate(B,A) = ", ba, " (max |out| ", scale, ")"));
@@ -410,6 +420,15 @@ check_output(Sim& s, const Out& out, bool nonneg_activity)
       stats().maxi("max rel err process_data vs per-pair estimate", worst_direct / scale);
     }
   return Result::pass();
+}
+
+bool
+same_grid(const json& a, const json& b)
+{
+  for (const char* k : { "nx", "ny", "nz", "vx", "vy", "vz" })
+    if (a[k] != b[k])
+      return false;
+  return true;
 }
 
 // ---- the property ------------------------------------------------------------------------------------
@@ -457,7 +476,18 @@ check(const json& c)
   Sim H;
   init_obj(H, st);
   Model M;
-  bool H_downsampled_in_set_up = false; // H has stored derived zoom factors
+  bool H_downsampled_in_set_up = false; // H has stored derived zoom factors ...
+  int auto_tmpl = -1, auto_att = -1;    // ... derived from this template and attenuation image
+  bool any_exclusion = false;
+  struct CountExcluded
+  {
+    bool& f;
+    ~CountExcluded()
+    {
+      if (f)
+        ++stats().excluded_known; // cases in which at least one event was rewritten to stay outside a known finding
+    }
+  } count_excluded{ any_exclusion };
   int eff_exam = -1; // energy window in force when H computed its 511 keV efficiency (first process_data after a template change)
   long n_compared = 0, n_setters_since_process = 0;
   bool had_process = false;
@@ -473,16 +503,20 @@ check(const json& c)
           {
             // KNOWN FINDING C16-F3: with the default (automatic) zoom settings a single-ring template gives a scatter-point
             // image of ONE plane, zoom_z = (1-1)/(old_z-1) = 0, voxel size z = inf and NaN output.  Excluded.
+            any_exclusion = true;
             stats().count("excluded: automatic scatter-point down-sampling for a single-ring scanner");
             M.sp = decode_sp(P, M.att, c_arg, 1, d_arg, M.tmpl);
             M.sp_set = true;
             H.set_density_image_for_scatter_points_sptr(make_sp(P, M.sp));
           }
-        else if (H_downsampled_in_set_up && !st.explicit_zoom && !no_exclude("F4"))
+        else if (H_downsampled_in_set_up && !st.explicit_zoom && !no_exclude("F4")
+                 && !(auto_tmpl == M.tmpl && same_grid(c["atts"][std::size_t(auto_att)], c["atts"][std::size_t(M.att)])))
           {
             // KNOWN FINDING C16-F4 (work/notes/C16_findings.md): set_up's automatic down-sampling overwrites the
             // "automatic" (-1) zoom settings with derived numbers, so a second automatic down-sampling on the same object
-            // re-uses factors derived from the old attenuation image/template.  Excluded: give an explicit scatter-point image.
+            // re-uses factors derived from the old attenuation image/template.  Excluded (unless template and attenuation grid
+            // are the ones of the first automatic down-sampling): give an explicit scatter-point image.
+            any_exclusion = true;
             stats().count("excluded: second automatic scatter-point down-sampling");
             M.sp = decode_sp(P, M.att, c_arg, 1, d_arg, M.tmpl);
             M.sp_set = true;
@@ -490,9 +524,14 @@ check(const json& c)
           }
         else
           {
-            stats().cls("set_up with automatic scatter-point down-sampling");
+            stats().count("set_up with automatic scatter-point down-sampling");
             if (H_downsampled_in_set_up)
-              stats().cls("second automatic down-sampling on one object");
+              stats().count("repeated automatic down-sampling on one object");
+            else
+              {
+                auto_tmpl = M.tmpl;
+                auto_att = M.att;
+              }
           }
       }
     if (eff_exam >= 0 && !no_exclude("F1")
@@ -502,6 +541,7 @@ check(const json& c)
         // KNOWN FINDING C16-F1: detector_efficiency_no_scatter (efficiency at 511 keV used for normalisation) is computed
         // lazily by the first process_data after set_template_proj_data_info and never reset by set_exam_info/set_up.
         // Excluded: an energy-window change after a process_data is accompanied by re-setting the (same) template on H.
+        any_exclusion = true;
         stats().count("excluded: energy window changed after process_data (template re-set on the history object)");
         apply_tmpl(H, P.tmpls[M.tmpl]);
         eff_exam = -1;
@@ -585,8 +625,10 @@ check(const json& c)
           ++n_setters_since_process;
           break;
         case SET_CACHE:
-          if (M.use_cache != bool(a & 1))
-            M.dirty = true; // the property speaks about changes "followed by set-up"
+          // the property speaks about changes "followed by set-up"; set_use_cache itself does not invalidate the set-up
+          // (probe for the observation in work/notes/C16_findings.md: VERIF_C16_NO_SETUP_AFTER_CACHE=1)
+          if (M.use_cache != bool(a & 1) && !std::getenv("VERIF_C16_NO_SETUP_AFTER_CACHE"))
+            M.dirty = true;
           M.use_cache = bool(a & 1);
           H.set_use_cache(M.use_cache);
           ++n_setters_since_process;
@@ -931,7 +973,7 @@ gen(Src& s, int size)
       if (s.coin())
         push(PROCESS);
     }
-  const int len = 2 + int(s.range(0, std::max(2, size / 5)));
+  const int len = 4 + int(s.range(0, std::max(4, size / 3)));
   int n_process = 0;
   for (int k = 0; k < len; ++k)
     {
